@@ -14,7 +14,7 @@ HERE = os.path.dirname(os.path.abspath(__file__))
 # Which of the three proposed repairs the code in /repo contains (order: fixSuspend, fixFromVar, fixWrap; see
 # lean/SgVerif/LmmBook/Model.lean `Cfg`).  "000" = the code as it is now.  After the integrator applies
 # props/C18/proposed_fix.diff flip the first bit, after props/C17/proposed_fix.diff the second and third.
-CFG_BITS = "000"
+CFG_BITS = "111"
 
 U32 = 2 ** 32
 WEIGHTS = [0, 1, 2, 3, 4, 4, 4, 4, 5, 8, 12]          # quarter units: 0, <1 (no slot), 1, >1
